@@ -101,6 +101,16 @@ impl Sweep {
             },
             embed: false,
         });
+        // tabs after block markers (pulldown-cmark expands them)
+        fams.push(Family {
+            name: "G1/markdown-tabs".into(),
+            fes: fe_idx(&fes, |f| f.name == "markdown" || f.name == "gitcommit" || f.name == "lhaskell"),
+            generator: Gen::Strings {
+                atoms: strs(&["\t", "*", "-", ">", "a", "#", "[[", "&amp;", " ", "\n", "1."]),
+                max_len: t.pick(4, 5),
+            },
+            embed: false,
+        });
         // character references (which decode to a different character than the source holds) and
         // inline spans whose delimiters are longer than one character
         fams.push(Family {
@@ -832,7 +842,8 @@ pub fn check_tokens(
                 if txt.iter().any(|c| c.is_whitespace()) {
                     // cause class: the condensed Latin phrase is a documented single token
                     let low = c2s(txt).to_lowercase();
-                    let class = if low == "et al." { "et-al" } else { "other" };
+                    let parts: Vec<&str> = low.split_whitespace().collect();
+                    let class = if parts == ["et", "al."] { "et-al" } else { "other" };
                     problems.push((format!("{stage}:shape-word-has-whitespace:{class}"), json!({"token": i, "text": c2s(txt)})));
                 }
             }
